@@ -6,12 +6,25 @@ Pipeline per batch of trees:
   2. coqc evaluates, per case, the domain checks, the view comparison (model result == observed tree, for both
      calls), the property monitor (Model/Upkeep.v:c18_monitor, the function C18_monitor_sound is about) and
      prints the model's mutation list;
-  3. crash points: coqc computes `apply fs (firstn k ops)` (and the state after a partial k-th write) for chosen k,
-     the states are materialised as real trees and go through 1-2 again, plus "nodes of the original tree outside
-     factory/ survive";
-  4. strace: the order of successful mutating syscalls of the real call is compared with the model's list.
+  3. model-driven crash points: coqc computes `apply fs (firstn k ops)` (and the state after a partial k-th write) for
+     chosen k, the states are materialised as real trees and go through 1-2 again, plus "nodes of the original tree
+     outside factory/ survive";
+  4. strace: the order of successful mutating syscalls (MUT_SET) of the real call is compared with the model's list.  A
+     difference is a broken correspondence (`no_input`), reported only when no stage exhibits a failing input;
+  5. implementation-driven crash points (inject_stage): for a handful of start trees (empty directory, damaged complete
+     trees, trees with stale F.tmp/F.new/F~/.F.swp siblings, generated trees) the real call is run under
+     `strace -e inject=<syscall>:signal=SIGKILL:when=<n>` once per system call of MUT_SET it issues - the process dies on
+     ENTRY of that call, whatever write strategy the code uses - then two complete calls run on the tree it left and the
+     result goes through the same Coq evaluation as the crash states of 3 (before = tree after the kill, orig = start tree).
+     Three invocations of the harness mode per batch: materialise (runs = 0), the killed call (existing, mark, runs = 1; one
+     process per kill point, 12 in parallel), recovery (existing, pre, runs = 2).  strace counts calls per thread AND per
+     syscall name: n = calls of that name before the begin marker + inside the call, taken from one uninjected straced run of
+     the same start tree; every killed run's own log says where it really died, wrongly placed kills are repeated.
+     Paths the killed run itself left behind (not in the start tree, not template paths) are not the property's business:
+     an observation that fails only because later runs remove or rewrite them is a correspondence difference, not a failing input.
 File contents are passed to Coq as lists of chunk ids (see `Abs`)."""
-import hashlib, random, re, shutil
+import hashlib, json, random, re, shutil, time
+from concurrent.futures import ThreadPoolExecutor
 from common import *
 
 CFG, FACT, BL = "hidi-config", "factory", "device blacklist.txt"
@@ -184,6 +197,18 @@ class Impl:
                 return None, "harness could not set up case %d: %s" % (r["id"], r.get("setup_err"))
             res.append([{"err": x["err"], "panic": x["panic"], "tree": tree_from_json(x["tree"] or [])} for x in r["runs"]])
         return res, None
+
+
+    def raw(self, root, cases, **opts):
+        """one invocation of the harness mode with explicit options (setup / recover phases of the injection stage)"""
+        inp = dict({"root": root, "cases": cases}, **opts)
+        out, err = run_harness(self.binary, "c18", inp, timeout=1200, flags=False)
+        if out is None:
+            raise CheckError("C18 harness failed: " + err)
+        for r in out["results"]:
+            if r.get("setup_err"):
+                raise CheckError("C18 harness: case %d: %s" % (r["id"], r["setup_err"]))
+        return out["results"]
 
 
 def rcode(run):
@@ -403,6 +428,84 @@ def handmade(tmpl):
     return out
 
 
+def factory_files(tmpl):
+    return [(p, v) for p, v in tmpl if v is not None and p.startswith(CFG + "/" + FACT + "/")]
+
+
+SIBLINGS = [lambda d, f: "%s/%s.tmp" % (d, f), lambda d, f: "%s/%s.new" % (d, f), lambda d, f: "%s/%s~" % (d, f),
+            lambda d, f: "%s/.%s.swp" % (d, f), lambda d, f: "%s/%s.bak" % (d, f), lambda d, f: "%s/.%s.lock" % (d, f)]
+
+
+def stale_sibling_tree(rng, tmpl, idx):
+    """A complete tree in which 1-3 factory files F are damaged or missing while a regular file with arbitrary content sits next to them under a
+    name an interrupted run of SOME write strategy might have left (F.tmp F.new F~ .F.swp F.bak .F.lock): later runs must still restore F, and
+    must leave the sibling alone (the template does not name it).  Sometimes the same names also appear next to hidi.toml / in user/."""
+    tree = {p: v for p, v in tmpl}
+    info = {"kind": "stale-sibling", "states": {}, "siblings": []}
+    ff = factory_files(tmpl)
+    picks = rng.sample(ff, min(len(ff), 1 + idx % 3))
+    for j, (p, v) in enumerate(picks):
+        st, c = mutate_file(rng, v)
+        while st == "intact":
+            st, c = mutate_file(rng, v)
+        info["states"][p] = st
+        if c is None:
+            del tree[p]
+        else:
+            tree[p] = c
+        d, f = p.rsplit("/", 1)
+        for mk in ([SIBLINGS[(idx + j) % len(SIBLINGS)]] + ([rng.choice(SIBLINGS)] if rng.random() < 0.4 else [])):
+            q = mk(d, f)
+            if q not in tree:
+                # content: empty, a prefix of the template (what a killed writer leaves), the complete template, or noise
+                tree[q] = rng.choice([b"", v[:rng.randrange(len(v) + 1)], v, rbytes(rng, 0, 64)])
+                info["siblings"].append(q)
+    if rng.random() < 0.5:
+        for q in (CFG + "/hidi.toml.tmp", CFG + "/user/.README.md.swp", CFG + "/" + BL + "~"):
+            if rng.random() < 0.6 and q.rsplit("/", 1)[0] in tree:
+                tree[q] = rbytes(rng, 0, 40)
+                info["siblings"].append(q)
+    return tree, info
+
+
+def injection_starts(rng, tmpl, tier):
+    """start trees of the implementation-driven crash exploration"""
+    full = {p: v for p, v in tmpl}
+    ff = factory_files(tmpl)
+    out = [({}, {"kind": "absent", "tag": "empty working directory (fresh generation)"})]
+    t = dict(full)
+    if len(ff) >= 2:
+        t[ff[1][0]] = ff[1][1][:len(ff[1][1]) // 2] + b"# local edit\n"
+        del t[ff[-1][0]]
+    out.append((t, {"kind": "present", "tag": "complete tree, one factory file modified and one missing"}))
+    t = dict(full)
+    for j, (p, v) in enumerate(ff):
+        if j % 4 == 0:
+            t[p] = v[:len(v) // 3]
+        elif j % 4 == 1:
+            t[p] = b""
+        elif j % 4 == 2:
+            t[p] = v + b"\n# appended by hand\n"
+    sub = [p for p, v in tmpl if v is None and p.startswith(CFG + "/" + FACT + "/")]
+    if sub:
+        for q in [q for q in t if q == sub[-1] or q.startswith(sub[-1] + "/")]:
+            del t[q]
+    t[CFG + "/hidi.toml"] = b"# my settings\n[hidi]\n"
+    t[CFG + "/" + BL] = b"# mine\nBus: 0x0003, Vendor: 0x046d, Product: 0xc52b, Version: 0x0111\n"
+    if CFG + "/user" in t:
+        t[CFG + "/user/my pad.toml"] = b"[identifier]\nbus = 3\n"
+        t[CFG + "/user/notes"] = None
+        t[CFG + "/user/notes/todo.txt"] = b"x"
+    t[CFG + "/" + FACT + "/extra.toml"] = b"# not a built-in file\n"
+    out.append((t, {"kind": "present", "tag": "user files, custom blacklist, damaged factory files, a factory directory missing"}))
+    for i in range(4 if tier == "quick" else 8):
+        out.append(stale_sibling_tree(rng, tmpl, i))
+    for kind in (["present"] * 7 + ["conflict"] * 2 if tier == "quick" else ["present"] * 16 + ["absent"] + ["conflict"] * 3):
+        t, info = gen_tree(rng, tmpl, kind)
+        out.append((t, info))
+    return [{"before": t, "info": i} for t, i in out]
+
+
 # ----------------------------------------------------------------------------- strace
 
 _STR = r'"((?:[^"\\]|\\.)*)"'
@@ -412,10 +515,17 @@ def _unesc(s):
     return re.sub(r"\\(\d{1,3}|.)", lambda m: chr(int(m.group(1), 8)) if m.group(1).isdigit() else m.group(1), s).encode("latin-1").decode("utf-8", "replace")
 
 
-def parse_strace(path, root):
-    """-> {(case id, run): [ops]} for the syscalls between the marker mkdirs"""
-    pending = {}
-    lines = []
+# every system call that can change a tree (names strace 6.1 knows on x86_64); reads through openat are in the set too
+MUT_SET = ("mkdir,mkdirat,open,openat,openat2,creat,write,pwrite64,writev,pwritev,pwritev2,rename,renameat,renameat2,unlink,unlinkat,rmdir,"
+           "truncate,ftruncate,fallocate,link,linkat,symlink,symlinkat,chmod,fchmod,fchmodat,chown,fchown,lchown,fchownat,utimensat,"
+           "copy_file_range,sendfile,splice,mknod,mknodat")
+_FD_CALLS = ("pwrite64", "writev", "pwritev", "pwritev2", "ftruncate", "fallocate", "fchmod", "fchown")
+
+
+def strace_entries(path):
+    """-> [(tid, text)] in log order, one entry per traced system call.  The two halves of a call split by Go's preemption signal
+    (`<unfinished ...>` / `<... resumed>`) are joined; a call the process was killed at ends with `= ?`."""
+    pending, out = {}, []
     for line in open(path, errors="replace"):
         m = re.match(r"^(\d+)\s+(.*)$", line.rstrip("\n"))
         if not m:
@@ -427,9 +537,21 @@ def parse_strace(path, root):
         m2 = re.match(r"^<\.\.\. \w+ resumed>(.*)$", rest)
         if m2:
             rest = pending.pop(pid, "") + m2.group(1)
-        lines.append(rest)
+        if re.match(r"^\w+\(", rest):
+            out.append((pid, rest))
+    for pid, rest in pending.items():
+        out.append((pid, rest + " = ?"))
+    return out
+
+
+def sc_name(text):
+    return text[:text.index("(")]
+
+
+def parse_strace(path, root):
+    """-> {(case id, run): [ops]} for the successful mutating syscalls between the marker mkdirs"""
     out, cur, fds = {}, None, {}
-    for l in lines:
+    for _, l in strace_entries(path):
         m = re.match(r'^mkdir(?:at)?\((?:AT_FDCWD, )?' + _STR + r", [0-7]+\)\s+= (-?\d+)", l)
         if m:
             p, rc = _unesc(m.group(1)), int(m.group(2))
@@ -466,7 +588,49 @@ def parse_strace(path, root):
                     last[2] += rc
                 else:
                     out[cur].append(["write", fds[fd], rc])
+            continue
+        # anything else of MUT_SET that succeeded (rename, unlink, pwrite64, ftruncate, chmod ...): the model has no such operation
+        m = re.match(r"^(\w+)\((.*)\)\s+= (\d+)\s*$", l)
+        if not m or m.group(1) == "write":
+            continue
+        name, args = m.group(1), m.group(2)
+        paths = [_unesc(x) for x in re.findall(_STR, args)]
+        if name in ("openat", "open", "openat2", "creat"):   # an open the pattern above does not understand (dirfd, openat2)
+            if name == "creat" or re.search(r"O_(WRONLY|RDWR|CREAT|TRUNC)", args):
+                out[cur].append([name] + paths)
+        elif name in _FD_CALLS or name in ("copy_file_range", "sendfile", "splice"):
+            hit = [fds[int(x)] for x in re.findall(r"(?:^|, )(\d+)(?=,|$)", args)[:2] if int(x) in fds]
+            if hit:
+                out[cur].append([name] + hit)
+        else:
+            out[cur].append([name] + paths)
     return out
+
+
+def call_window(entries, root, cid):
+    """The call bracketed by the marker mkdirs of case `cid` in one strace log.
+    -> None (no begin marker: the process ended before the call) or dict(tid, pre = {syscall name: number of calls of that name the calling
+    thread issued before the begin marker}, win = [strace text of every MUT_SET call of that thread inside the call], ended = end marker seen,
+    others = number of MUT_SET calls of other threads logged inside the call)"""
+    b, e = '"%s/mark-%d-0-begin"' % (root, cid), '"%s/mark-%d-0-end"' % (root, cid)
+    at = next((i for i, (_, t) in enumerate(entries) if t.startswith("mkdir") and b in t), None)
+    if at is None:
+        return None
+    tid = entries[at][0]
+    pre = {}
+    for t, text in entries[:at + 1]:
+        if t == tid:
+            pre[sc_name(text)] = pre.get(sc_name(text), 0) + 1
+    win, ended, others = [], False, 0
+    for t, text in entries[at + 1:]:
+        if t != tid:
+            others += 1
+            continue
+        if text.startswith("mkdir") and e in text:
+            ended = True
+            break
+        win.append(re.sub(r"\s+", " ", text))
+    return {"tid": tid, "pre": pre, "win": win, "ended": ended, "others": others}
 
 
 # ----------------------------------------------------------------------------- the check
@@ -478,6 +642,13 @@ def diff_summary(tmpl, before, after):
         uf = p == fpre or p.startswith(fpre + "/")
         if not uf and p in before and before.get(p) != after.get(p, "missing"):
             msgs.append("%s (outside factory/) was %s" % (p, "removed" if p not in after else "changed"))
+    names = {p for p, _ in tmpl}
+    for p in sorted(set(before) | set(after)):
+        uf = p == fpre or p.startswith(fpre + "/")
+        if p not in names and uf and before.get(p, "missing") != after.get(p, "missing"):
+            msgs.append("%s (inside factory/, not a built-in entry) was %s" % (p, "removed" if p not in after else "created" if p not in before else "changed"))
+        elif p not in names and p not in before:
+            msgs.append("%s (not a template path) was created" % p)
     for p, v in tmpl:
         if (p == fpre or p.startswith(fpre + "/")) and after.get(p, "missing") != v:
             msgs.append("factory entry %s is %s" % (p, "missing" if p not in after else "not the template (%s bytes instead of %s)" % (
@@ -493,6 +664,7 @@ class Checker:
         self.nontrivial = set()
         self.seen = set()
         self.corr_failed = set()
+        self.leftover_notes = []
 
     def report(self, cat, what, case, res, ev, no_input=False):
         self.reported[cat] = self.reported.get(cat, 0) + 1
@@ -500,7 +672,7 @@ class Checker:
             return
         rep = {"kind": "c18-tree", "before": tree_to_json(case["before"]),
                "orig": tree_to_json(case["orig"]) if case.get("orig") else None,
-               "crash": case.get("crash"), "info": case.get("info"),
+               "crash": case.get("crash"), "info": case.get("info"), "injected": case.get("injected"),
                "after": tree_to_json(res[0]["tree"]) if res else None, "after2": tree_to_json(res[1]["tree"]) if res else None,
                "returned": [{"err": r["err"], "panic": r["panic"]} for r in res] if res else None,
                "flags": {k: ev[k] for k in FLAGS} if ev else None, "model_ops": ev["ops"] if ev else None,
@@ -514,50 +686,82 @@ class Checker:
         results, err = self.impl.call([c["before"] for c in cases])
         if results is None:
             raise CheckError("C18 harness failed: " + err)
-        tmpl = self.impl.tmpl
-        evs = eval_cases(tmpl, cases, results, tag)
+        evs = eval_cases(self.impl.tmpl, cases, results, tag)
         for c, r, ev in zip(cases, results, evs):
-            self.calls += 2
-            h = tree_hash(c["before"])
-            if ev["nontrivial"] and h not in self.seen:
-                self.nontrivial.add(h)
-            self.seen.add(h)
-            where = "crash state k=%s%s of a generated tree" % (c["crash"]["k"], " (partial write)" if c["crash"]["partial"] else "") if c.get("crash") else "generated tree (%s)" % (c.get("info") or {}).get("kind")
-            if not ev["wf_template"]:
-                self.corr_failed.add("template")
-                self.report("template dumped from the binary is not in fs.WalkDir order / lacks factory or blacklist (wf_templateb)",
-                            "the embedded template of the binary does not satisfy wf_template: the theorems' hypothesis fails", c, r, ev, no_input=True)
-                continue
-            if not ev["fs_wf"]:
-                raise CheckError("generator produced a tree that is not a tree: %r" % describe(c["before"]))
-            for i, x in enumerate(r):
-                if x["panic"]:
-                    self.report("panic", "updateHIDIConfiguration panicked (call %d) on a %s: %s" % (i + 1, where, x["panic"]), c, r, ev)
-            if not ev["untouched"]:
-                self.report("C18_user_untouched monitor",
-                            "start-up upkeep touched something it must not on a %s: %s" % (where, diff_summary(tmpl, c["before"], r[0]["tree"])), c, r, ev)
-            elif not ev["orig_kept"]:
-                self.report("C18_crash_recovery monitor (original nodes outside factory/)",
-                            "after an interrupted run and a later complete run a node of the original tree outside factory/ is lost or changed (%s): %s"
-                            % (where, diff_summary(tmpl, c["orig"], r[0]["tree"])), c, r, ev)
-            elif ev["type_consistent"] and not ev["monitor"]:
-                what = diff_summary(tmpl, c["before"], r[0]["tree"])
-                if r[0]["tree"] != r[1]["tree"]:
-                    what += "; a second run changed the tree again"
-                if r[0]["err"]:
-                    what += "; the call returned: " + r[0]["err"][:160]
-                self.report("C18 monitor (factory restored / blacklist / fresh tree / idempotent)",
-                            "start-up upkeep on a %s does not establish the property: %s" % (where, what), c, r, ev)
-            elif not (ev["view1"] and ev["view2"]):
-                self.corr_failed.add("view")
-                self.report("C18 view: tree and outcome after updateHIDIConfiguration == Model/Upkeep.v run/upkeep",
-                            "model and implementation disagree on a %s (call %s): implementation returned %r, model result code %s, model ops %s"
-                            % (where, "1" if not ev["view1"] else "2", [x["err"][:80] or x["panic"][:80] for x in r], ev["model_result"], ev["ops"][:6]), c, r, ev)
+            self.count(c, ev)
+            for cat, what, no_input in self.verdicts(c, r, ev):
+                self.report(cat, what, c, r, ev, no_input=no_input)
         return results, evs
+
+    def count(self, c, ev, calls=2):
+        self.calls += calls
+        h = tree_hash(c["before"])
+        if ev["nontrivial"] and h not in self.seen:
+            self.nontrivial.add(h)
+        self.seen.add(h)
+
+    def verdicts(self, c, r, ev):
+        """-> [(theorem or correspondence, text, no_input)] for one evaluated case: `before`, the two observed runs, the flags of c18_eval"""
+        tmpl = self.impl.tmpl
+        out = []
+        if c.get("injected"):
+            where = "tree left by a run killed at its %s mutating system call" % ordinal(c["injected"]["k"])
+        elif c.get("crash"):
+            where = "crash state k=%s%s of a generated tree" % (c["crash"]["k"], " (partial write)" if c["crash"]["partial"] else "")
+        else:
+            where = "generated tree (%s)" % (c.get("info") or {}).get("kind")
+        if not ev["wf_template"]:
+            self.corr_failed.add("template")
+            return [("template dumped from the binary is not in fs.WalkDir order / lacks factory or blacklist (wf_templateb)",
+                     "the embedded template of the binary does not satisfy wf_template: the theorems' hypothesis fails", True)]
+        if not ev["fs_wf"]:
+            raise CheckError("generator produced a tree that is not a tree: %r" % describe(c["before"]))
+        for i, x in enumerate(r):
+            if x["panic"]:
+                out.append(("panic", "updateHIDIConfiguration panicked (call %d) on a %s: %s" % (i + 1, where, x["panic"]), False))
+        if not ev["untouched"]:
+            out.append(("C18_user_untouched monitor",
+                        "start-up upkeep touched something it must not on a %s: %s" % (where, diff_summary(tmpl, c["before"], r[0]["tree"])), False))
+        elif not ev["orig_kept"]:
+            out.append(("C18_crash_recovery monitor (original nodes outside factory/)",
+                        "after an interrupted run and a later complete run a node of the original tree outside factory/ is lost or changed (%s): %s"
+                        % (where, diff_summary(tmpl, c["orig"], r[0]["tree"])), False))
+        elif ev["type_consistent"] and not ev["monitor"]:
+            what = diff_summary(tmpl, c["before"], r[0]["tree"])
+            if r[0]["tree"] != r[1]["tree"]:
+                what += "; a second run changed the tree again"
+            if r[0]["err"]:
+                what += "; the call returned: " + r[0]["err"][:160]
+            out.append(("C18 monitor (factory restored / blacklist / fresh tree / idempotent)",
+                        "start-up upkeep on a %s does not establish the property: %s" % (where, what), False))
+        elif not (ev["view1"] and ev["view2"]):
+            self.corr_failed.add("view")
+            out.append(("C18 view: tree and outcome after updateHIDIConfiguration == Model/Upkeep.v run/upkeep",
+                        "model and implementation disagree on a %s (call %s): implementation returned %r, model result code %s, model ops %s"
+                        % (where, "1" if not ev["view1"] else "2", [x["err"][:80] or x["panic"][:80] for x in r], ev["model_result"], ev["ops"][:6]), False))
+        return out
+
+
+def _verdicts_quiet(self, c, r, ev):
+    keep = set(self.corr_failed)
+    try:
+        return self.verdicts(c, r, ev)
+    finally:
+        self.corr_failed = keep
+
+
+Checker.verdicts_quiet = _verdicts_quiet
+
+
+def ordinal(n):
+    return "%d%s" % (n, "th" if 10 <= n % 100 <= 20 else {1: "st", 2: "nd", 3: "rd"}.get(n % 10, "th"))
 
 
 def gen_cases(rng, tmpl, n):
     cases = [{"before": t, "info": i} for t, i in handmade(tmpl)]
+    for i in range(max(8, n // 12)):
+        t, info = stale_sibling_tree(rng, tmpl, i)
+        cases.append({"before": t, "info": info})
     kinds = ["present"] * 8 + ["absent"] + ["conflict"]
     while len(cases) < n:
         kind = rng.choice(kinds)
@@ -592,38 +796,238 @@ def crash_cases(rng, tmpl, cases, evs, tier):
     return out
 
 
+ORDER_CORR = "C18 order: successful mutating syscalls == model ops"
+
+
 def strace_order(chk, cases, evs):
-    """compare the order of successful mutating syscalls of the first call with the model's operation list"""
+    """compare the order of successful mutating syscalls of the first call with the model's operation list.
+    -> (number of traced cases, [(case, results, eval, observed ops)] where the order differs).  A difference alone is a broken
+    correspondence, not a failing input: run() reports it (no_input) only when no stage exhibits a failing input."""
     run_ = chk.run_
     if shutil.which("strace") is None:
         run_.assumptions.append("strace not available: syscall order not compared in this run")
-        return 0
+        return 0, []
     log = os.path.join(workdir(), "c18-strace.log")
     impl = chk.impl
     n0 = impl.n + 1
     root = os.path.join(workdir(), "c18-root-%d" % n0)
     res, err = impl.call([c["before"] for c in cases], mark=True,
-                         prefix=["strace", "-f", "-s", "0", "-e", "trace=mkdir,mkdirat,openat,write", "-o", log])
+                         prefix=["strace", "-f", "-s", "0", "-e", "trace=" + MUT_SET, "-o", log])
     if res is None:
         raise CheckError("C18 harness under strace failed: " + err)
     seq = parse_strace(log, root)
     os.unlink(log)
-    bad = 0
+    diffs = []
     for i, (c, ev) in enumerate(zip(cases, evs)):
         got = seq.get((i, 0))
         if got is None:
             raise CheckError("no strace window for case %d" % i)
         if got != ev["ops"]:
-            bad += 1
             chk.corr_failed.add("strace")
-            chk.report("C18 order: successful mutating syscalls of updateHIDIConfiguration == fst (upkeep T fs)",
-                       "the order of mutating system calls differs from the model: observed %s, model %s" % (got[:8], ev["ops"][:8]),
-                       c, res[i], ev)
+            diffs.append((c, res[i], ev, got))
         second = seq.get((i, 1))
         if ev["type_consistent"] and second:
-            bad += 1
             chk.report("C18_idempotent (syscalls)", "the second call issued mutating system calls: %s" % second[:6], c, res[i], ev)
-    return len(cases)
+    return len(cases), diffs
+
+
+def first_diff(got, ops):
+    i = next((j for j, (x, y) in enumerate(zip(got, ops)) if x != y), min(len(got), len(ops)))
+    return "from operation %d on: observed %s, model %s" % (i + 1, got[i:i + 4], ops[i:i + 4])
+
+
+# ----------------------------------------------------------------------------- implementation-driven crash exploration
+
+def _straced_call(binary, root, cid, inject, tag):
+    """One process: chdir into the existing directory case-<cid>, one updateHIDIConfiguration between the marker mkdirs, under strace.
+    inject = None | (syscall name, n): strace kills the process (SIGKILL) when the calling thread enters its n-th call of that name.
+    -> (finished normally, strace entries)"""
+    import subprocess
+    w = workdir()
+    fin, fout, log = [os.path.join(w, "inj-%s.%s" % (tag, x)) for x in ("in.json", "out.json", "strace")]
+    with open(fin, "w") as fh:
+        json.dump({"root": root, "mark": True, "existing": True, "cases": [{"id": cid, "tree": [], "runs": 1}]}, fh)
+    cmd = ["strace", "-f", "-s", "0", "-e", "trace=" + MUT_SET]
+    if inject:
+        cmd += ["-e", "inject=%s:signal=SIGKILL:when=%d" % inject]
+    cmd += ["-o", log, binary]
+    try:
+        subprocess.run(cmd, env=dict(GOENV, VERIF_MODE="c18", VERIF_IN=fin, VERIF_OUT=fout), cwd=w, capture_output=True, text=True, timeout=300)
+        finished = os.path.exists(fout)
+        entries = strace_entries(log)
+    finally:
+        for f in (fin, fout, log):
+            if os.path.exists(f):
+                os.unlink(f)
+    return finished, entries
+
+
+def leftovers(tmpl, orig, tree):
+    """paths of `tree` that are neither in the start tree nor named by the template: what the interrupted run itself left behind"""
+    names = {p for p, _ in tmpl}
+    return {p for p in tree if p not in orig and p not in names}
+
+
+def without(tree, drop):
+    return {p: v for p, v in tree.items() if p not in drop and not any(p.startswith(d + "/") for d in drop)}
+
+
+def inject_stage(chk, starts, order_note=""):
+    """Kill the real code at every mutating system call of one call, then let two complete calls recover; judge the result with the
+    monitor used for crash states.  starts: [dict(before, info)].  Returns a coverage dict."""
+    run_, impl, tmpl = chk.run_, chk.impl, chk.impl.tmpl
+    cov = {"injected_cases": len(starts), "injected_crash_points": 0, "injected_distinct_states": 0, "injected_retries": 0,
+           "injected_points_unreached": 0, "injected_leftover_only_differences": 0, "injected_other_thread_syscalls": 0,
+           "injected_windows": [], "injected_s": 0.0}
+    if shutil.which("strace") is None or not starts:
+        if starts:
+            run_.assumptions.append("strace not available: no implementation-driven crash exploration in this run")
+        return cov
+    t0 = time.time()
+    # the start trees themselves, run to completion: a tree that fails without any interruption is reported as such and not explored further
+    # (every history from it would fail for the same reason and hide the histories that need the interruption)
+    _, sev = chk.process(starts, "istart")
+    ok = [not chk.verdicts_quiet(c, r, ev) for c, r, ev in zip(starts, _, sev)]
+    cov["injected_start_trees_failing_uninterrupted"] = ok.count(False)
+    starts = [c for c, o in zip(starts, ok) if o]
+    cov["injected_cases"] = len(starts)
+    if not starts:
+        return cov
+    impl.n += 1
+    root = os.path.join(workdir(), "c18-inject-%d" % impl.n)
+    shutil.rmtree(root, ignore_errors=True)
+    os.makedirs(root)
+    pool = ThreadPoolExecutor(max_workers=min(12, os.cpu_count() or 4))
+    next_id = [0]
+
+    def materialise(trees):
+        ids = list(range(next_id[0], next_id[0] + len(trees)))
+        next_id[0] += len(trees)
+        for b0 in range(0, len(trees), 100):
+            impl.raw(root, [{"id": i, "tree": tree_to_json(t), "runs": 0} for i, t in zip(ids[b0:b0 + 100], trees[b0:b0 + 100])])
+        return ids
+
+    try:
+        # 1. one complete straced call per start tree: the window = every MUT_SET call of the calling thread inside the call
+        ids = materialise([c["before"] for c in starts])
+        probes = list(pool.map(lambda a: _straced_call(impl.binary, root, a, None, "p%d" % a), ids))
+        wins = []
+        for c, cid, (fin, ent) in zip(starts, ids, probes):
+            w = call_window(ent, root, cid)
+            if not fin or w is None or not w["ended"]:
+                raise CheckError("injection stage: the uninjected straced call on start tree %r did not complete" % (c["info"],))
+            wins.append(w)
+            cov["injected_other_thread_syscalls"] += w["others"]
+            cov["injected_windows"].append(len(w["win"]))
+        # 2. kill on entry of the i-th call of the window, i = 1..len(window): the tree then holds the effects of the first i-1 calls
+        want = [(ci, i) for ci, w in enumerate(wins) for i in range(1, len(w["win"]) + 1)]
+        got = {}        # (ci, i) -> (case directory id, window of the killed run)
+        pres = [[w["pre"]] for w in wins]      # per start tree: the pre-counts seen so far (they depend on which thread runs the call)
+        for rnd in range(6):
+            todo = [x for x in want if x not in got]
+            if not todo:
+                break
+            cov["injected_retries"] += len(todo) if rnd else 0
+            dirs = materialise([starts[ci]["before"] for ci, _ in todo])
+
+            def one(a):
+                (ci, i), cid = a
+                names = [sc_name(t) for t in wins[ci]["win"]]
+                pre = pres[ci][(rnd + i) % len(pres[ci])] if rnd else pres[ci][0]
+                return _straced_call(impl.binary, root, cid, (names[i - 1], pre.get(names[i - 1], 0) + names[:i].count(names[i - 1])), "k%d" % cid)
+            for ((ci, i), cid), (fin, ent) in zip(zip(todo, dirs), list(pool.map(one, zip(todo, dirs)))):
+                w = call_window(ent, root, cid)
+                if w is not None and w["pre"] not in pres[ci]:
+                    pres[ci].append(w["pre"])
+                if fin or w is None or w["ended"] or not w["win"] or not w["win"][-1].endswith("= ?"):
+                    continue        # not killed inside the call (another thread ran it: different counters): tried again
+                names = [sc_name(t) for t in w["win"]]
+                if names != [sc_name(t) for t in wins[ci]["win"][:len(names)]]:
+                    raise CheckError("injection stage: two runs on the same start tree issue different system calls: %s / %s"
+                                     % (w["win"][-3:], wins[ci]["win"][max(0, len(names) - 3):len(names)]))
+                got.setdefault((ci, len(names)), (cid, w))
+        cov["injected_points_unreached"] = len([x for x in want if x not in got])
+        if cov["injected_points_unreached"] > max(2, len(want) // 10):
+            raise CheckError("injection stage: %d of %d kill points could not be hit" % (cov["injected_points_unreached"], len(want)))
+        # 3. recovery: the tree as the killed run left it, then two complete calls
+        keys = sorted(got)
+        rec = {}
+        for b0 in range(0, len(keys), 100):
+            part = keys[b0:b0 + 100]
+            for k, r in zip(part, impl.raw(root, [{"id": got[k][0], "tree": [], "runs": 2} for k in part], existing=True, pre=True)):
+                if len(r["runs"]) != 2:
+                    raise CheckError("injection stage: recovery of case %d did not run twice" % r["id"])
+                rec[k] = (tree_from_json(r.get("pre") or []),
+                          [{"err": x["err"], "panic": x["panic"], "tree": tree_from_json(x["tree"] or [])} for x in r["runs"]])
+    finally:
+        pool.shutdown(wait=True)
+        shutil.rmtree(root, ignore_errors=True)
+    cov["injected_crash_points"] = len(rec)
+    # 4. verdict through the same Coq path as the model-driven crash states; identical (kill tree, recovery) outcomes are evaluated once
+    groups = {}
+    for (ci, i) in sorted(rec):
+        crash, runs = rec[(ci, i)]
+        key = (ci, tree_hash(crash), tree_hash(runs[0]["tree"]), tree_hash(runs[1]["tree"]), rcode(runs[0]), rcode(runs[1]))
+        groups.setdefault(key, []).append(i)
+    cases, results = [], []
+    for key, ks in groups.items():
+        ci, k = key[0], ks[0]
+        crash, runs = rec[(ci, k)]
+        win = got[(ci, k)][1]["win"]
+        cases.append({"before": crash, "orig": starts[ci]["before"], "crash": {"k": k, "partial": False, "of_case": ci},
+                      "info": dict(starts[ci]["info"], kind="injected"),
+                      "injected": {"k": k, "same_outcome_at_k": ks, "killed_at": win[-1], "syscalls_up_to_k": win,
+                                   "window_length": len(wins[ci]["win"]), "start": tree_to_json(starts[ci]["before"]),
+                                   "start_info": starts[ci]["info"], "tree_after_kill": tree_to_json(crash),
+                                   "history": "run interrupted at the %s mutating syscall (%s), then 2 complete runs"
+                                              % (ordinal(k), re.sub(r"\s*= \?$", "", win[-1]))}})
+        results.append(runs)
+    cov["injected_distinct_states"] = len(cases)
+    evs = eval_cases(tmpl, cases, results, "inject") if cases else []
+    retry, reports = [], []
+    for c, r, ev in zip(cases, results, evs):
+        chk.count(c, ev, calls=2 + len(c["injected"]["same_outcome_at_k"]))
+        vs = chk.verdicts(c, r, ev)
+        left = leftovers(tmpl, c["orig"], c["before"])
+        if vs and left and not any(x["panic"] for x in r):
+            retry.append((c, r, ev, vs, left))
+        elif vs:
+            reports.append((c, r, ev, vs))
+    if retry:
+        # the killed run left paths of its own (not in the start tree, not template paths).  The property says nothing about them: judge the
+        # same observation without them; what then passes is only a difference from the model (which never creates such paths)
+        c2 = [dict(c, before=without(c["before"], left)) for c, r, ev, vs, left in retry]
+        r2 = [[dict(x, tree=without(x["tree"], left)) for x in r] for c, r, ev, vs, left in retry]
+        ev2 = eval_cases(tmpl, c2, r2, "injectl")
+        for (c, r, ev, vs, left), cc, rr, ee in zip(retry, c2, r2, ev2):
+            vs2 = chk.verdicts(cc, rr, ee)
+            if vs2:
+                c["injected"]["own_leftovers_disregarded"] = sorted(left)
+                reports.append((c, r, ee, vs2))
+            else:
+                cov["injected_leftover_only_differences"] += 1
+                chk.corr_failed.add("inject-leftover")
+                chk.leftover_notes.append("killed at the %s mutating syscall (%s) the code leaves %s, which later runs %s" % (
+                    ordinal(c["injected"]["k"]), c["injected"]["killed_at"][:100], sorted(left)[:3],
+                    "remove or change" if any(r[0]["tree"].get(p, 0) != c["before"].get(p) for p in left) else "keep"))
+    for c, r, ev, vs in sorted(reports, key=lambda x: (x[0]["crash"]["of_case"], x[0]["injected"]["k"])):
+        report_injected(chk, c, r, ev, vs, order_note)
+    cov["injected_failing_histories"] = len(reports)
+    cov["injected_sample"] = [{"start": (c["injected"]["start_info"] or {}).get("tag") or (c["injected"]["start_info"] or {}).get("kind"),
+                               "history": c["injected"]["history"], "tree_after_kill": describe(c["before"], 8)}
+                              for c in cases[1:len(cases):max(1, len(cases) // 3)]][:3]
+    cov["injected_s"] = round(time.time() - t0, 1)
+    return cov
+
+
+def report_injected(chk, c, r, ev, vs, order_note):
+    left = sorted(leftovers(chk.impl.tmpl, c["orig"], c["before"]))
+    for cat, what, no_input in vs:
+        chk.report("injected crash: " + cat, "history: %s; start tree: %s. %s%s%s" % (
+            c["injected"]["history"], (c["injected"]["start_info"] or {}).get("tag") or (c["injected"]["start_info"] or {}).get("kind"),
+            what, "; the killed run left behind %s, still %s after both later runs" % (
+                left[:3], "there" if all(p in r[1]["tree"] for p in left) else "partly there") if left and any(p in r[1]["tree"] for p in left) else "",
+            order_note), c, r, ev, no_input=no_input)
 
 
 C18_FILES = ["Model/Upkeep", "Proofs/UpkeepProofs", "Properties/C18", "Run/UpkeepRun"]
@@ -681,7 +1085,7 @@ def run(run_, only=None):
         part = cases[b0:b0 + batch]
         _, evs = chk.process(part, "base%d" % b0)
         all_evs += evs
-    # crash points
+    # crash points derived from the model's mutation list
     base_for_crash = [(c, e) for c, e in zip(cases, all_evs) if not c.get("crash")]
     cc = crash_cases(rng, tmpl, [c for c, _ in base_for_crash], [e for _, e in base_for_crash], tier)
     for b0 in range(0, len(cc), 150):
@@ -691,7 +1095,31 @@ def run(run_, only=None):
         crash_partial += sum(1 for c in part if c["crash"]["partial"])
     # syscall order
     n_st = 30 if tier == "quick" else len(cases)
-    straced = strace_order(chk, cases[:n_st], all_evs[:n_st])
+    straced, order_diffs = strace_order(chk, cases[:n_st], all_evs[:n_st])
+    order_note = ""
+    if order_diffs:
+        order_note = " (the order of mutating system calls also differs from the model's operation list on %d of %d traced trees, %s)" % (
+            len(order_diffs), straced, first_diff(order_diffs[0][3], order_diffs[0][2]["ops"]))
+    # crash points of the implementation: the real code killed at each of its mutating system calls
+    if only is not None:
+        starts = [{"before": c["before"], "info": c.get("info") or {"kind": "replay"}} for c in only if c.get("inject")]
+    else:
+        starts = injection_starts(rng, tmpl, tier)
+    icov = inject_stage(chk, starts, order_note)
+    # a difference between the real call sequence and the model's, without any failing input: the correspondence is broken, nothing else
+    if (order_diffs or chk.leftover_notes) and not any(not v["no_input"] for v in run_.violations) and not run_.known_hits:
+        c, r, ev, got = order_diffs[0] if order_diffs else (starts[0], None, None, None)
+        parts = []
+        if order_diffs:
+            parts.append("the successful mutating system calls of updateHIDIConfiguration differ from the model's operation list on %d of %d traced "
+                         "trees (first: %s)" % (len(order_diffs), straced, first_diff(got, ev["ops"])))
+        if chk.leftover_notes:
+            parts.append("an interrupted run leaves paths the model never creates (%d kill points; first: %s)"
+                         % (len(chk.leftover_notes), chk.leftover_notes[0]))
+        chk.report(ORDER_CORR, "%s. No failing input: all %d trees, %d crash states derived from the model and %d runs killed at a mutating system "
+                   "call of the real code (each followed by 2 complete runs) satisfy the monitor - the model no longer describes HOW the code gets "
+                   "there, so C18_crash_recovery / C18_user_untouched (statements about the model's intermediate states) are not tied to this code"
+                   % ("; ".join(parts), len(cases), crash_total, icov["injected_crash_points"]), c, r, ev, no_input=True)
 
     kinds = {}
     for c in cases:
@@ -702,31 +1130,40 @@ def run(run_, only=None):
         for p, st in ((c.get("info") or {}).get("states") or {}).items():
             if (CFG + "/" + FACT + "/") in p:
                 states[st] = states.get(st, 0) + 1
-    n_corr = 5
+    n_corr = 6
     run_.coverage.update({
         "evaluations": chk.calls,
         "distinct_nontrivial": len(chk.nontrivial),
         "rule": "seeded random trees around the template dumped from the binary: each factory file absent / truncated at a random byte / "
                 "modified (same length, shorter, longer, template plus a tail) / empty / intact, factory directories absent, arbitrary user "
                 "files and extra files and directories (also inside factory/), blacklist absent / arbitrary / intact, hidi.toml and user/ files "
-                "modified or absent, the whole directory absent, a few type conflicts, 6 hand-made trees; every tree is run twice through the "
-                "real updateHIDIConfiguration; then for %s k the model's state after the first k mutations (and after a partial k-th write "
-                "at a random byte) is materialised and run twice again. non-trivial = distinct trees on which the model issues at least one "
-                "mutation (evaluations = calls of the real function)" % ("sampled" if tier == "quick" else "every"),
+                "modified or absent, the whole directory absent, a few type conflicts, 6 hand-made trees, trees with a damaged or missing factory "
+                "file F next to a stale F.tmp / F.new / F~ / .F.swp / F.bak / .F.lock (what an interrupted run of some other write strategy leaves); "
+                "every tree is run twice through the real updateHIDIConfiguration; then for %s k the model's state after the first k mutations "
+                "(and after a partial k-th write at a random byte) is materialised and run twice again; then, implementation-driven, on %d start "
+                "trees the real call is killed by strace (SIGKILL on entry) at EVERY system call of MUT_SET it issues (mkdir*, open*, write*, "
+                "rename*, unlink*, truncate*, link*, symlink*, chmod*, ... - reads through openat included), the tree it leaves is run twice "
+                "again and judged by the same monitor as the model's crash states. non-trivial = distinct trees on which the model issues at "
+                "least one mutation (evaluations = calls of the real function, a killed call counts as one)"
+                % ("sampled" if tier == "quick" else "every", icov["injected_cases"]),
         "samples": [{"tree": describe(c["before"], 12), "kind": (c.get("info") or {}).get("kind"), "model_ops": e["ops"][:8]}
                     for c, e in list(zip(cases, all_evs))[3:9:2]] +
-                   ([{"crash_state_of_case": cc[0]["crash"], "tree": describe(cc[0]["before"], 12)}] if cc else []),
+                   ([{"crash_state_of_case": cc[0]["crash"], "tree": describe(cc[0]["before"], 12)}] if cc else []) +
+                   [{"injected": x} for x in icov.pop("injected_sample", [])],
         "exhaustive": False,
         "base_trees": len(cases), "base_tree_kinds": kinds, "factory_file_states_generated": states,
         "crash_states": crash_total, "crash_states_with_partial_write": crash_partial,
-        "strace_compared_cases": straced,
+        "strace_compared_cases": straced, "strace_order_differs_on": len(order_diffs),
         "template_entries": len(tmpl),
         "correspondence_obligations": n_corr,
         "correspondence_discharged": n_corr - len(chk.corr_failed) if not run_.violations else max(0, n_corr - max(1, len(chk.corr_failed))),
         "correspondence_names": ["template dumped from the binary satisfies wf_template", "view: tree+outcome after each real call == model (base trees)",
                                  "view on materialised crash states", "monitor c18_monitor / c18_untouched on observed trees",
-                                 "strace: order of successful mutating syscalls == model ops"],
+                                 "strace: order of successful mutating syscalls == model ops",
+                                 "injected crash points: monitor and view on the trees the real code leaves when killed at each of its mutating "
+                                 "syscalls; it leaves no path of its own"],
     })
+    run_.coverage.update(icov)
     run_.assumptions += [
         "file contents are given to Coq as chunk-id lists: every content of a case is cut at all content lengths and partial-write offsets of "
         "that case, a chunk id names (offset, bytes); injective per case and commutes with the model's content operations (equality, prefix, "
@@ -736,11 +1173,31 @@ def run(run_, only=None):
         "a crash is modelled as a prefix of the mutation sequence plus an arbitrary prefix of the data of the write in progress "
         "(no reordering of metadata and data by the file system after power loss)",
         "the harness calls updateHIDIConfiguration in a process whose working directory is the case directory, the logger channel is drained",
+        "implementation-driven crash points: strace 6.1 `-e inject=<syscall>:signal=SIGKILL:when=<n>` kills the process when the calling thread "
+        "ENTERS its n-th call of that name, i.e. before the call takes effect (observed: the file of a killed openat(O_CREAT) does not exist); the "
+        "state after the last call is the complete run.  strace counts per thread and per syscall name, so n is computed from an uninjected "
+        "straced run of the same start tree (calls of that name before the begin marker + inside the call) and the log of every killed run is "
+        "re-read to establish where it really died (a run that died elsewhere - the Go scheduler put the test on another thread - is repeated). "
+        "A kill inside a write (partial data) cannot be produced this way: partial writes are covered by the model-derived crash states only. "
+        "Only calls of the thread that runs updateHIDIConfiguration (locked) are kill points; MUT_SET calls of other threads inside the call are "
+        "counted in coverage.injected_other_thread_syscalls (runtime wake-ups; none touch the tree on the unchanged code)",
+        "injected histories are judged by the monitor of the crash states (before = the tree the killed run left, orig = the start tree); when that "
+        "fails and the killed run left paths of its own (not in the start tree, not named by the template) the same observation is judged again "
+        "without those paths: the property does not speak about them.  What passes only then is reported as a broken correspondence "
+        "(the model never creates such paths), not as a failing input",
+        "a difference between the order of the real mutating syscalls and the model's operation list is reported as a broken correspondence "
+        "(no failing input) only when no stage found a failing input; otherwise it is mentioned in the text of the injected-crash report",
     ]
 
 
 def replay(run_, data):
     rep = data["replay"]
+    inj = rep.get("injected")
+    if inj:
+        # the whole history again: the start tree, the real code killed at every mutating syscall, two complete runs
+        case = {"before": tree_from_json(inj["start"]), "info": inj.get("start_info") or {"kind": "replay"}, "inject": True}
+        run(run_, only=[case])
+        return
     case = {"before": tree_from_json(rep["before"]), "info": rep.get("info") or {"kind": "replay"}}
     if rep.get("orig"):
         case["orig"] = tree_from_json(rep["orig"])
